@@ -1,1 +1,235 @@
-int main() { return 0; }
+// fsim - single-threaded clock / file-system / crash simulator driver.
+//
+//   fsim batch <prop> <tier> <base_seed> <first> <stride> <count> <outdir>
+//   fsim serve                      (plan JSON lines on stdin -> result JSON lines)
+//   fsim gen <prop> <tier> <seed>
+//
+// In-process: many histories per process; each history runs on a private
+// directory under /dev/shm that is created and removed by the engine.
+#include <cstdio>
+#include <cstdlib>
+#include <cstring>
+#include <iostream>
+#include <set>
+#include <sys/syscall.h>
+#include <unistd.h>
+
+#include <QJsonArray>
+#include <QJsonDocument>
+#include <QJsonObject>
+
+#include "engine.h"
+#include "fplan.h"
+#include "sim.h"
+
+using namespace fsim;
+
+static std::string g_flavour =
+#ifdef __SANITIZE_ADDRESS__
+        "asan";
+#else
+        "plain";
+#endif
+
+static double real_now()
+{
+    struct timespec ts;
+    syscall(SYS_clock_gettime, CLOCK_MONOTONIC, &ts);
+    return ts.tv_sec + ts.tv_nsec * 1e-9;
+}
+
+static FPlan derived_plan(const FPlan &p, const Result &r)
+{
+    FPlan q = p;
+    if (p.prop == "C10" && p.enumerate && r.at_op >= 0 && r.at_op < (int)q.ops.size()) {
+        q.enumerate = false;
+        if (r.fault_call >= 0) {
+            q.ops[r.at_op].fault_call = r.fault_call;
+            q.ops[r.at_op].fault_nth = r.fault_nth;
+            q.ops[r.at_op].fault_errno = r.fault_errno;
+        } else {
+            q.ops[r.at_op].crash_b = r.crash_b;
+            q.ops[r.at_op].crash_torn = r.crash_torn;
+        }
+    }
+    return q;
+}
+
+static QJsonObject result_json(const Result &r)
+{
+    QJsonObject o;
+    o["ok"] = r.ok;
+    o["machinery"] = r.machinery;
+    o["class"] = QString::fromStdString(r.cls);
+    o["msg"] = QString::fromStdString(r.msg);
+    o["signature"] = QString::fromStdString(r.signature);
+    o["hash"] = QString::number(r.hash, 16);
+    QJsonObject pr;
+    for (auto &kv : r.probes)
+        pr[QString::fromStdString(kv.first)] = kv.second;
+    o["probes"] = pr;
+    return o;
+}
+
+static void cleanup_top()
+{
+    std::string top = "/dev/shm/qtlv." + std::to_string((int)getpid());
+    std::string h = top + "/h";
+    rmdir(h.c_str());
+    rmdir(top.c_str());
+}
+
+static int cmd_batch(int argc, char **argv)
+{
+    if (argc < 9)
+        return 2;
+    std::string prop = argv[2], tier = argv[3];
+    uint64_t base = strtoull(argv[4], nullptr, 10);
+    long first = atol(argv[5]), stride = atol(argv[6]), count = atol(argv[7]);
+    std::string outdir = argv[8];
+    double budget_s = getenv("TSIM_BUDGET_S") ? atof(getenv("TSIM_BUDGET_S")) : 1e9;
+    std::string outpath = outdir + "/w" + std::to_string(first) + ".jsonl";
+    FILE *out = fopen(outpath.c_str(), "w");
+    if (!out)
+        return 2;
+    std::set<uint64_t> projs;
+    std::map<std::string, long> probe_sum, probe_runs, classes;
+    long runs = 0, violations = 0, nondet = 0, crash_points = 0, fault_runs = 0;
+    double sim_days = 0;
+    QJsonArray samples;
+    double start = real_now();
+    uint64_t ph = sim::fnv1a(prop.data(), prop.size());
+    for (long k = 0; k < count; k++) {
+        long index = first + k * stride;
+        uint64_t seed = sim::mix(sim::mix(base, ph), (uint64_t)index);
+        FPlan plan = generate(prop, tier, seed);
+        Result r = run_history(plan);
+        runs++;
+        if (k < 4) {
+            Result r2 = run_history(plan);
+            if (r2.hash != r.hash || r2.ok != r.ok || r2.cls != r.cls) {
+                nondet++;
+                QJsonObject o;
+                o["kind"] = "nondeterminism";
+                o["index"] = (qint64)index;
+                o["hash1"] = QString::number(r.hash, 16);
+                o["hash2"] = QString::number(r2.hash, 16);
+                o["plan"] = to_json(plan);
+                fprintf(out, "%s\n", QJsonDocument(o).toJson(QJsonDocument::Compact).constData());
+            }
+        }
+        if (r.proj)
+            projs.insert(r.proj);
+        sim_days += r.sim_days;
+        crash_points += r.crash_points;
+        fault_runs += r.fault_runs;
+        for (auto &kv : r.probes) {
+            probe_sum[kv.first] += kv.second;
+            if (kv.second)
+                probe_runs[kv.first]++;
+        }
+        if (!r.ok) {
+            violations++;
+            classes[r.signature.empty() ? r.cls : r.signature]++;
+            QJsonObject o = result_json(r);
+            o["kind"] = "violation";
+            o["index"] = (qint64)index;
+            o["seed"] = QString::number(seed);
+            o["plan"] = to_json(derived_plan(plan, r));
+            fprintf(out, "%s\n", QJsonDocument(o).toJson(QJsonDocument::Compact).constData());
+            fflush(out);
+        }
+        if (first == 0 && k < 2)
+            samples.append(to_json(plan));
+        if (real_now() - start > budget_s)
+            break;
+    }
+    QJsonObject st;
+    st["kind"] = "stats";
+    st["prop"] = QString::fromStdString(prop);
+    st["flavour"] = QString::fromStdString(g_flavour);
+    st["runs"] = (qint64)runs;
+    st["violations"] = (qint64)violations;
+    st["machinery"] = 0;
+    st["nondeterminism"] = (qint64)nondet;
+    st["wall_s"] = real_now() - start;
+    st["sim_days"] = sim_days;
+    st["crash_points"] = (qint64)crash_points;
+    st["fault_runs"] = (qint64)fault_runs;
+    QJsonObject pj, prj, clj;
+    for (auto &kv : probe_sum)
+        pj[QString::fromStdString(kv.first)] = (qint64)kv.second;
+    for (auto &kv : probe_runs)
+        prj[QString::fromStdString(kv.first)] = (qint64)kv.second;
+    for (auto &kv : classes)
+        clj[QString::fromStdString(kv.first)] = (qint64)kv.second;
+    st["probes"] = pj;
+    st["probe_runs"] = prj;
+    st["classes"] = clj;
+    st["samples"] = samples;
+    fprintf(out, "%s\n", QJsonDocument(st).toJson(QJsonDocument::Compact).constData());
+    fclose(out);
+    std::string hp = outdir + "/w" + std::to_string(first) + ".hashes";
+    FILE *hf = fopen(hp.c_str(), "wb");
+    if (hf) {
+        for (uint64_t h : projs)
+            fwrite(&h, sizeof h, 1, hf);
+        fclose(hf);
+    }
+    return 0;
+}
+
+static int cmd_serve()
+{
+    std::string line;
+    while (std::getline(std::cin, line)) {
+        if (line.empty())
+            continue;
+        QJsonDocument d = QJsonDocument::fromJson(QByteArray::fromStdString(line));
+        FPlan plan;
+        if (d.isNull() || !from_json(d.object(), plan)) {
+            printf("{\"ok\":false,\"machinery\":true,\"class\":\"bad-plan\",\"msg\":\"cannot parse plan\"}\n");
+            fflush(stdout);
+            continue;
+        }
+        Result r = run_history(plan);
+        printf("%s\n", QJsonDocument(result_json(r)).toJson(QJsonDocument::Compact).constData());
+        fflush(stdout);
+    }
+    return 0;
+}
+
+int main(int argc, char **argv)
+{
+    sim::init_env();
+    if (argc < 2)
+        return 2;
+    std::string cmd = argv[1];
+    if (cmd == "gen") {
+        if (argc < 5)
+            return 2;
+        FPlan p = generate(argv[2], argv[3], strtoull(argv[4], nullptr, 10));
+        printf("%s\n", QJsonDocument(to_json(p)).toJson(QJsonDocument::Compact).constData());
+        return 0;
+    }
+    sim::shm_attach(sim::shm_create());
+    // quiet: the sinks report failed renames etc. on stderr (expected under injected faults)
+    if (!getenv("FSIM_KEEP_STDERR"))
+        if (!freopen("/dev/null", "w", stderr)) { }
+    int rc = 2;
+    if (cmd == "batch")
+        rc = cmd_batch(argc, argv);
+    else if (cmd == "serve")
+        rc = cmd_serve();
+    cleanup_top();
+    return rc;
+}
+
+extern "C" __attribute__((used)) const char *__asan_default_options()
+{
+    return "exitcode=77:detect_leaks=0:handle_abort=0:allocator_may_return_null=1";
+}
+extern "C" __attribute__((used)) const char *__ubsan_default_options()
+{
+    return "halt_on_error=1:exitcode=77:print_stacktrace=1";
+}
